@@ -26,8 +26,8 @@ import (
 var fillSpecial = []int{0x7f, 0x80, 0x85, 0x9b, 0x9f, 0xad, 0x200b, 0x200d, 0x200e, 0x202e, 0x2060, 0xfeff, 0x301, 0x20dd,
 	0xe0001, 0xd800, 0xfffe, -1, -0x80000000, 0x110000, 0x7fffffff}
 
-// fillZWSuffix probes the tree under test once per process (public CellBuffer API only): "+fz" when Fill stores a
-// zero-width rune with width 0, so that GetContent shows a blank exactly as after SetContent
+// fillZWSuffix probes the tree under test once per process (public CellBuffer API only): "+fz" when Fill replaces a
+// zero-width rune by a blank, so that GetContent shows a blank exactly as after SetContent
 // (fixes/C09-fill-zero-width.patch); "" for the pinned Fill (width 1 for every rune, cell.go:244).  The flag travels on
 // the case lines (after the entry name for draw / modes, as the pseudo-op `V fz` for cb, as the sixth variant letter
 // for sim, as the pseudo-op `variant fz` for wasm draw) and selects the model variant in the Lean driver; no oracle
@@ -186,8 +186,9 @@ func execCB(line string) h.Result {
 				if got := sh.wideFil[k]; got {
 					oldw = 1
 					if runewidth.RuneWidth(rune(old.main)) == 0 {
-						// a zero-width rune covers no column: nothing is forced dirty by replacing it (the repaired Fill
-						// records width 0 for it; the pinned Fill records 1 and forces, which the property does not ask for)
+						// a zero-width rune covers no column: the property does not ask for a forced repaint when it is
+						// replaced (both Fill variants record width 1 and do force; a content change is still detected by
+						// the comparison with the last clean snapshot)
 						oldw = 0
 					}
 				} else {
@@ -328,6 +329,15 @@ func execCB(line string) h.Result {
 
 func genCB(g *h.Gen) {
 	r := g.R
+	// directed: a clean blank cell, then Fill with zero-width / control runes in the same style (the repaired Fill stores a
+	// blank: the cell stays clean; the pinned Fill stores the rune: dirty), then with an ordinary rune (dirty on both)
+	for _, fr := range []int{0x200b, 0x9b, 0x7f, 0x301, 0, -1, 0x110000, ' '} {
+		v := ""
+		if fillZWSuffix() != "" {
+			v = "V fz; "
+		}
+		g.Emit("cb %sR 2 1; D 0 0 0; D 1 0 0; F %d 0,0,0,0,0,-,-; Q 0 0; G 1 0; F 120 0,0,0,0,0,-,-; Q 0 0; G 1 0", v, fr)
+	}
 	n := g.N(3000, 200000)
 	for i := 0; i < n; i++ {
 		var ops []string
